@@ -279,7 +279,12 @@ class CookieHandler:
         for _cookie in cookies:
             LOGGER.debug(f"Cookie: {_cookie}")
             if "name" in _cookie and _cookie["name"] == name:
-                _content = self._ver_dec_content(_cookie["value"].split("|"))
+                _parts = _cookie["value"].split("|")
+                if len(_parts) > 3 and self.sign_key and not self.enc_key and not self.crypt:
+                    # signed-only cookie: timestamp and MAC are the outermost parts, the clear
+                    # text payload between them may itself contain the separator
+                    _parts = [_parts[0], "|".join(_parts[1:-1]), _parts[-1]]
+                _content = self._ver_dec_content(_parts)
                 if _content:
                     payload, timestamp = _content
                     # the type is the last component: the value may itself contain colons
